@@ -14,6 +14,7 @@ import SkNet.Lemmas.ModularityLeidenComp
 import SkNet.Lemmas.ModularityRule
 import SkNet.Lemmas.ModularityConn
 import SkNet.Lemmas.ModularityTermZero
+import SkNet.Lemmas.ModularityRelabel
 
 namespace SkNet.C06
 open SkNet SkNet.Modularity
@@ -44,11 +45,8 @@ theorem getModularity_eq_def (nRow nCol nnz : Nat) (B : Nat → Nat → Rat) (la
     (labelsCol : Option (List Int)) (γ : Rat) (o : ModOut)
     (h : getModularity nRow nCol nnz B labels labelsCol .degree γ = .ok o) :
     ∃ lab, modLabels nRow nCol labels labelsCol = .ok lab ∧
-      o.mod = modularityDoc (modAdj nRow nCol B).1 (modAdj nRow nCol B).2 γ (labelAt lab) := by
-  obtain ⟨lab, pr, pc, h1, h2, h3, -, rfl⟩ := getModularity_ok _ _ _ _ _ _ _ _ _ h
-  refine ⟨lab, h1, ?_⟩
-  rw [modTerms_mod, modTerms_fit, modTerms_div, getProbs_degree_out _ _ _ h2, getProbs_degree_in _ _ _ h3,
-    ← fit_sub_div_eq_doc]
+      o.mod = modularityDoc (modAdj nRow nCol B).1 (modAdj nRow nCol B).2 γ (labelAt lab) :=
+  getModularity_eq_def_degree nRow nCol nnz B labels labelsCol γ o h
 
 /-- the undirected form of the documentation: `Q = (1/w) Σ_{i,j} (A_ij − γ d_i d_j / w) δ(c_i,c_j)` -/
 def modularityDocUndirected (n : Nat) (A : Nat → Nat → Rat) (γ : Rat) (c : Nat → Int) : Rat :=
@@ -99,6 +97,63 @@ example :
     (getModularity 5 5 12
       (fun i j => if (i, j) ∈ [(0,1),(1,0),(0,4),(4,0),(1,2),(2,1),(1,4),(4,1),(2,3),(3,2),(3,4),(4,3)] then 1 else 0)
       [0, 0, 1, 1, 0] none .degree 1).toOption.map (·.mod) = some (1 / 9 : Rat) := by decide +kernel
+
+/-! ## 1b. renumbering the nodes (used by C02) -/
+
+/-- **modularity_relabel_invariant (directed form).**  For every `n`, every permutation `π` of the nodes (with
+    inverse `π'`; new node `π i` is old node `i`), every matrix, labelling and resolution: the documented
+    modularity `(1/w) Σ (A_ij − γ d⁺_i d⁻_j / w) δ(c_i,c_j)` of the renumbered matrix with the renumbered labels is
+    that of the original. -/
+theorem modularity_relabel_invariant {n : Nat} {π π' : Nat → Nat} (h : IsPerm n π π') (A : Nat → Nat → Rat)
+    (γ : Rat) (c : Nat → Int) :
+    modularityDoc n (relabelMat π' A) γ (relabelVec π' c) = modularityDoc n A γ c :=
+  modularityDoc_relabel h A γ c
+
+/-- **… undirected form** (symmetric matrix, `(1/w) Σ (A_ij − γ d_i d_j / w) δ`) -/
+theorem modularity_relabel_invariant_undirected {n : Nat} {π π' : Nat → Nat} (h : IsPerm n π π')
+    (A : Nat → Nat → Rat) (hA : ∀ i j, i < n → j < n → A i j = A j i) (γ : Rat) (c : Nat → Int) :
+    modularityDocUndirected n (relabelMat π' A) γ (relabelVec π' c) = modularityDocUndirected n A γ c := by
+  rw [← modularityDoc_undirected n A γ c hA,
+    ← modularityDoc_undirected n (relabelMat π' A) γ (relabelVec π' c)
+      (fun a b ha hb => hA _ _ (h.lt' a ha) (h.lt' b hb))]
+  exact modularityDoc_relabel h A γ c
+
+/-- **… with node weights** (`weights='uniform'`, or a custom vector renumbered with the nodes) -/
+theorem modularity_relabel_invariant_weighted {n : Nat} {π π' : Nat → Nat} (h : IsPerm n π π')
+    (A : Nat → Nat → Rat) (p : Nat → Rat) (γ : Rat) (c : Nat → Int) :
+    modularityWeighted n (relabelMat π' A) (relabelVec π' p) γ (relabelVec π' c) = modularityWeighted n A p γ c :=
+  modularityWeighted_relabel h A p γ c
+
+/-- **… bipartite form**: rows renumbered by `πr`, columns by `πc` (labels of rows and columns with them): the
+    modularity of the block adjacency `[[0,B],[Bᵀ,0]]` with the stacked labels is unchanged. -/
+theorem modularity_relabel_invariant_bipartite {nRow nCol : Nat} {πr πr' πc πc' : Nat → Nat}
+    (hr : IsPerm nRow πr πr') (hc : IsPerm nCol πc πc') (B : Nat → Nat → Rat) (γ : Rat) (c : Nat → Int) :
+    modularityDoc (nRow + nCol) (blockAdj nRow (relabelBi πr' πc' B)) γ (relabelVec (blockPerm nRow πr' πc') c)
+      = modularityDoc (nRow + nCol) (blockAdj nRow B) γ c :=
+  modularityDoc_relabel_bipartite hr hc B γ c
+
+/-- **… for the model of `get_modularity`** (via `getModularity_eq_def`): a call on a graph and a call on its
+    renumbering (square matrix, `weights='degree'`, both accepted) return the same modularity. -/
+theorem getModularity_relabel_invariant {n : Nat} {π π' : Nat → Nat} (h : IsPerm n π π') (nnz nnz' : Nat)
+    (A : Nat → Nat → Rat) (labels : List Int) (γ : Rat) (o o' : ModOut)
+    (h1 : getModularity n n nnz A labels none .degree γ = .ok o)
+    (h2 : getModularity n n nnz' (relabelMat π' A) (relabelList n π' labels) none .degree γ = .ok o') :
+    o'.mod = o.mod :=
+  getModularity_relabel h nnz nnz' A labels γ o o' h1 h2
+
+/-- the `house` graph of the docstring of `get_modularity` -/
+def house : Nat → Nat → Rat := fun i j =>
+  if (i, j) ∈ [(0,1),(1,0),(0,4),(4,0),(1,2),(2,1),(1,4),(4,1),(2,3),(3,2),(3,4),(4,3)] then 1 else 0
+
+/-- non-vacuity: the rotation `i ↦ i+2 (mod 5)` is a permutation of the 5 nodes of the house; the model accepts the
+    house and its renumbering (labels `[0,0,1,1,0]` renumbered to `[1,0,0,0,1]`) and returns 1/9 on both -/
+example : IsPerm 5 (fun i => (i + 2) % 5) (fun a => (a + 3) % 5) ∧
+    (getModularity 5 5 12 house [0, 0, 1, 1, 0] none .degree 1).toOption.map (·.mod) = some (1 / 9 : Rat) ∧
+    (getModularity 5 5 12 (relabelMat (fun a => (a + 3) % 5) house)
+        (relabelList 5 (fun a => (a + 3) % 5) [0, 0, 1, 1, 0]) none .degree 1).toOption.map (·.mod)
+      = some (1 / 9 : Rat) ∧
+    relabelList 5 (fun a => (a + 3) % 5) [0, 0, 1, 1, 0] = [1, 0, 0, 0, 1] :=
+  ⟨⟨by decide, by decide, by decide, by decide⟩, by decide +kernel, by decide +kernel, by decide⟩
 
 /-! ## 2. the gain of a move -/
 
